@@ -466,7 +466,64 @@ def random_strategy(tier):
     return st.one_of(a, b, b, c, h, falsy)
 
 
+# ---- a pool that grew large ----------------------------------------------------------------------------------------------
+
+def large_pool_cases(tier, seed):
+    for size in (1500, 3000) if tier == "quick" else (1500, 3000, 12000):
+        for idle in (0, 5):
+            for how in ("expire-all", "expire-half", "clear", "destroy-all"):
+                yield {"size": size, "idle": idle, "how": how}
+
+
+def check_large_pool(case):
+    """a burst had `size` connections checked out at once (threads, greenlets); they come back, some or all idle out together, and
+    the pool is used again: no internal error, every object that left the pool was removed exactly once, none is lost"""
+    size, idle, how = case["size"], case["idle"], case["how"]
+    created, removed = [], []
+    saved = P.time
+    clk = _ConstTime(1000.0)
+    P.time = clk
+    try:
+        def mk():
+            o = Obj()
+            created.append(o)
+            return o
+        pool = P.ObjectPool(mk, after_remove=removed.append, max_size=size, idle_timeout=idle)
+        desc = "pool of %d objects (idle_timeout %r), %s" % (size, idle, how)
+        try:
+            objs = [pool.get() for _ in range(size)]
+            half = size // 2
+            for o in objs[:half]:
+                pool.release(o)
+            clk.t += 3
+            for o in objs[half:]:
+                (pool.destroy if how == "destroy-all" else pool.release)(o)
+            if how == "expire-all":
+                clk.t += idle + 1
+            elif how == "expire-half":
+                clk.t += idle - 2
+            if how == "clear":
+                pool.clear()
+            o = pool.get()
+            pool.release(o)
+            for _ in range(5):
+                pool.release(pool.get())
+        except Exception as e:  # noqa: BLE001
+            raise Violation(["large-pool", "raises", type(e).__name__], "%r escaped: %s" % (e, desc))
+        free_ids = {id(x) for x in pool._free_objs}
+        for x in created:
+            n = sum(1 for r in removed if r is x)
+            if (id(x) in free_ids and n) or (id(x) not in free_ids and n != 1):
+                raise Violation(["large-pool", "after-remove-count"], "an object is %s and had after_remove invoked %d times: %s" % ("idle in the pool" if id(x) in free_ids else "gone from the pool", n, desc))
+        if pool._used_objs:
+            raise Violation(["large-pool", "used-not-empty"], "%d objects still checked out: %s" % (len(pool._used_objs), desc))
+    finally:
+        P.time = saved
+    return True, ["large-pool", how]
+
+
 PARTS = [
+    Part("a-pool-that-grew-large", "enum", check_large_pool, cases=large_pool_cases, shards={"quick": 8, "thorough": 12}, exhaustive=True),
     Part("preemption-bounded", "enum", check, cases=bounded_cases, exhaustive=True, distinct_by_construction=True,
          shards={"quick": 16, "thorough": 16}),
     Part("random-schedules", "hyp", check, strategy=random_strategy,
